@@ -178,6 +178,9 @@ func Main(t *testing.T, c *Check) {
 		// Unused time of earlier scenarios rolls over.
 		var wrest float64
 		for _, q := range c.Plans[i:] {
+			if only != "" && only != q.Scenario.Name {
+				continue // a single selected scenario gets the whole tier budget
+			}
 			if q.Weight == 0 {
 				wrest++
 			} else {
